@@ -38,15 +38,20 @@ class _Resource(object):
 
 
 _APPS = {}
+_WARMUP_CAPACITY = 7
 
 
 def get_app(capacity):
-    app = _APPS.get(capacity)
+    """ONE long-lived app serves every connection; ws_options.max_receive_queue is set before each connection (options
+    are documented as adjustable on the app object).  When the app is created it first serves a warm-up connection
+    with a capacity no case uses, so that every case's connection is a LATER connection of the app."""
+    app = _APPS.get('app')
     if app is None:
         app = falcon.asgi.App()
-        app.ws_options.max_receive_queue = capacity
         app.add_route(PATH, _Resource())
-        _APPS[capacity] = app
+        _APPS['app'] = app
+        run_case({'capacity': _WARMUP_CAPACITY, 'k': 1, 'disconnect': 1000, 'script': [['recv'], ['recv']], 'word': 'DADA'})
+    app.ws_options.max_receive_queue = capacity
     return app
 
 
